@@ -36,6 +36,19 @@ _real_os = os
 # virtual terminal
 
 
+class HarnessHang(BaseException):
+    """the operation under test does not come back: it polled the virtual tty more often, or for longer in
+    virtual time, than any terminating read can (BaseException: no `except Exception` of the library hides it)"""
+
+    def __init__(self, kind, what):
+        super().__init__(what)
+        self.kind = kind  # "hang" | "blocked"
+
+
+MAX_POLLS = 5000  # fake select()/read() calls one operation may make (a reply stream here has < 300 bytes)
+TIME_FACTOR = 8  # … and virtual time it may use, in timeouts, beyond the last scheduled arrival
+
+
 class VT:
     """tty input side in virtual time. `inq` = readable now; `pending` = [(abs tick, bytes)]"""
 
@@ -51,6 +64,15 @@ class VT:
         self.ioctl = (0, 0)  # pixel fields or None for OSError
         self.environ: dict[str, str] = {}
         self.selects = 0
+        self.reads = 0
+        self.T = 100  # the timeout the operation under test was given
+        self.horizon = 0  # latest arrival ever scheduled
+
+    def guard(self, what):
+        """bound every operation: raise HarnessHang once it cannot be a terminating read any more"""
+        if self.selects + self.reads > MAX_POLLS or self.now > self.horizon + TIME_FACTOR * max(self.T, 1):
+            raise HarnessHang("hang", f"still polling ({what}) after {self.selects} select() and {self.reads} read() calls, "
+                              f"virtual time {self.now}, although the timeout is {self.T}")
 
     def deliver(self):
         self.pending.sort(key=lambda p: p[0])  # stable: earlier-scheduled first on ties
@@ -63,6 +85,7 @@ class VT:
         for g, b in stream:
             t += g
             self.pending.append((t, bytes([b])))
+            self.horizon = max(self.horizon, t)
         self.deliver()
 
     def schedule(self, bursts):
@@ -71,6 +94,7 @@ class VT:
             t += g
             if bs:
                 self.pending.append((t, bytes(bs)))
+                self.horizon = max(self.horizon, t)
 
     def stream(self):
         """what is unread, as [(gap, byte)] relative to now"""
@@ -102,7 +126,19 @@ class _FakeOS:
         return len(data)
 
     def read(self, fd, n):
+        VTERM.reads += 1
+        VTERM.guard("read")
         VTERM.deliver()
+        vmin = VTERM.attrs[6][_termios.VMIN]
+        vmin = vmin if isinstance(vmin, int) else vmin[0]
+        if not VTERM.attrs[3] & _termios.ICANON and vmin > 0:
+            # non-canonical read with VMIN > 0, VTIME = 0: blocks until min(VMIN, n) bytes have arrived
+            need = min(vmin, n)
+            while len(VTERM.inq) < need:
+                if not VTERM.pending:
+                    raise HarnessHang("blocked", f"os.read blocks for good: {len(VTERM.inq)} of {need} bytes will ever arrive")
+                VTERM.now = max(VTERM.now, VTERM.pending[0][0])
+                VTERM.deliver()
         d = bytes(VTERM.inq[:n])
         del VTERM.inq[:n]
         return d
@@ -136,8 +172,7 @@ class _FakeTermios:
 
 def _fake_select(r, w, x, timeout=None):
     VTERM.selects += 1
-    if VTERM.selects > 2_000_000:
-        raise RuntimeError("virtual select: runaway loop")
+    VTERM.guard("select")
     VTERM.deliver()
     if timeout is not None and float(timeout).is_integer():
         timeout = int(timeout)  # keep the clock an exact integer (select(…, 0.0) in the drain)
@@ -175,6 +210,7 @@ def fresh(T=100, enabled=True, swap=False):
     """a new virtual terminal and library state as after import"""
     global VTERM
     VTERM = VT()
+    VTERM.T = T
     utils._query_timeout = T
     utils._queries_enabled = enabled
     utils._swap_win_size = swap
@@ -288,6 +324,40 @@ def f_more(spec) -> str:
 
 def lean_bytes(b: bytes) -> str:
     return "[" + ", ".join(str(x) for x in b) + "]"
+
+
+from PIL import Image as _PILImage  # noqa: E402
+import contextlib  # noqa: E402
+
+PIL_1x1 = _PILImage.new("RGB", (1, 1))
+
+
+@contextlib.contextmanager
+def real_env(TERM, COLORTERM):
+    """$TERM / $COLORTERM of the process (BlockImage.is_supported reads the real environment)"""
+    saved = {k: _real_os.environ.get(k) for k in ("TERM", "COLORTERM")}
+    try:
+        for k, v in (("TERM", TERM), ("COLORTERM", COLORTERM)):
+            if v is None:
+                _real_os.environ.pop(k, None)
+            else:
+                _real_os.environ[k] = v
+        yield
+    finally:
+        for k, v in saved.items():
+            if v is None:
+                _real_os.environ.pop(k, None)
+            else:
+                _real_os.environ[k] = v
+
+
+def block_supported_real(TERM, COLORTERM) -> bool:
+    with real_env(TERM, COLORTERM):
+        BlockImage._supported = None
+        try:
+            return bool(BlockImage.is_supported())
+        finally:
+            BlockImage._supported = None
 
 
 STYLE_NAME = {"KittyImage": "kitty", "ITerm2Image": "iterm2", "BlockImage": "block"}
@@ -409,10 +479,15 @@ class C12(Property):
                 KMOD.get_terminal_name_version, saved = (lambda: (None, None)), KMOD.get_terminal_name_version
                 try:
                     call()
+                except HarnessHang:  # the request is written before the read; a read that never ends is the cases' business
+                    pass
                 finally:
                     KMOD.get_terminal_name_version = saved
             else:
-                call()
+                try:
+                    call()
+                except HarnessHang:
+                    pass
             reqs[name] = bytes(vt.written)
         fresh()
         pats = {
@@ -479,6 +554,15 @@ class C12(Property):
                 w[-1] = (max(0, w[-1][0] + tgt - tot), w[-1][1])
         d = {"op": "read", "more": list(more), "T": T, "w": w}
         yield Case(f"read {f_more(more)} {T} {f_stream(w)}", d, "read-" + more[0], len(w) > 0)
+        # the literal loop: number of select() calls
+        yield Case(f"polls {f_more(more)} {T} {f_stream(w)}", {"op": "polls", "more": list(more), "T": T, "w": w},
+                   "polls" + ("-silent" if not w else ""), True)
+        # min= (blocking read of `min` bytes first) and echo=
+        mn = rng.choice([0, 1, 1, 2, 3, len(w), len(w) + 1])
+        echo = rng.random() < 0.5
+        d = {"op": "readtty", "more": list(more), "T": T, "min": mn, "echo": echo, "w": w}
+        kind = "readtty-min0" if mn == 0 else "readtty-blocked" if mn > len(w) else "readtty-min"
+        yield Case(f"readtty {f_more(more)} {T} {mn} {f_bool(echo)} {f_stream(w)}", d, kind + ("-echo" if echo else ""), mn > 0)
 
     def gen_avail(self, rng):
         w = self.rnd_stream(rng)
@@ -674,14 +758,16 @@ class C12(Property):
         term = {"replies": replies, "plans": plans}
         env = rng.choice([(None, None)] * 4 + [("WezTerm", "20230712"), ("iTerm.app", "3.4"), ("konsole", "22.04.1"), ("konsole", None)])
         en = rng.random() < 0.9
-        block = rng.random() < 0.8
+        # BlockImage's own rule is left REAL: it reads $TERM / $COLORTERM
+        TERM, COLORTERM = rng.choice(["xterm", "screen", "linux", "xterm-256color"]), rng.choice([None, None, "truecolor"])
+        block = block_supported_real(TERM, COLORTERM)
         styles = [STYLE_NAME[c.__name__] for c in IMG._styles]
         b_nv, b_k = expected_bursts(term, REQ["namever"]), expected_bursts(term, REQ["kitty"])
-        d = {"op": "auto", "enabled": en, "T": T, "w": [], "term": term, "env": list(env), "block": block,
+        d = {"op": "auto", "enabled": en, "T": T, "w": [], "term": term, "env": list(env), "block": block, "TERM": TERM, "COLORTERM": COLORTERM,
              "sem": {"name": name, "ver": ver, "sup": sup}, "conformant": mode == "unit"}
         line = (f"auto {len(styles)} {' '.join(styles)} {f_bool(en)} {T} 0 {f_bursts(b_nv)} {f_bursts(b_k)} "
                 f"{f_ob(env[0])} {f_ob(env[1])} {f_bool(block)}")
-        yield Case(line, d, f"auto-{mode}" + ("" if en else "-disabled"), en and bool(units))
+        yield Case(line, d, f"auto-{mode}" + ("" if en else "-disabled") + ("" if block else "-noblock"), en and bool(units))
         sup3 = [rng.random() < 0.5 for _ in range(3)]
         perm = rng.sample(["kitty", "iterm2", "block"], rng.randrange(1, 4))
         yield Case(f"autoclass {len(perm)} {' '.join(perm)} {' '.join(f_bool(b) for b in sup3)}",
@@ -756,6 +842,8 @@ class C12(Property):
         op = d["op"]
         try:
             return getattr(self, "run_" + op)(d)
+        except HarnessHang as e:
+            return "err blocked" if e.kind == "blocked" else "err hang" + tail()
         finally:
             KMOD.get_terminal_name_version = utils.get_terminal_name_version
             IMOD.get_terminal_name_version = utils.get_terminal_name_version
@@ -774,6 +862,16 @@ class C12(Property):
         self._setup(d)
         r = utils.read_tty(more_of(d["more"]), d["T"])
         return "ok " + hx(r) + tail()
+
+    def run_readtty(self, d):
+        self._setup(d)
+        r = utils.read_tty(more_of(d["more"]), d["T"], d["min"], echo=d["echo"])
+        return "ok " + hx(r) + tail()
+
+    def run_polls(self, d):
+        vt = self._setup(d)
+        utils.read_tty(more_of(d["more"]), d["T"])
+        return f"ok {vt.selects}"
 
     def run_avail(self, d):
         self._setup(d)
@@ -854,8 +952,33 @@ class C12(Property):
             vt.environ["TERM_PROGRAM"] = env[0]
         if env[1] is not None:
             vt.environ["TERM_PROGRAM_VERSION"] = env[1]
-        BlockImage._supported = d["block"]
-        return self._guard(lambda: IMG.auto_image_class(), lambda cls: "some " + STYLE_NAME[cls.__name__])
+        d.pop("_obs", None)
+        with real_env(d.get("TERM", "xterm-256color"), d.get("COLORTERM")):
+            BlockImage._supported = None if "TERM" in d else d["block"]
+            try:
+                cls = IMG.auto_image_class()
+            except (ValueError, ZeroDivisionError, AttributeError) as e:
+                return f"err {type(e).__name__}" + tail()
+            t = tail()
+            # what each style class had decided when the selection returned (None = never asked)
+            d["_obs"] = {"sup": {STYLE_NAME[c.__name__]: c._supported for c in IMG._styles},
+                         "order": [STYLE_NAME[c.__name__] for c in IMG._styles], "result": repr(cls)}
+            if cls is None:
+                return "ok none" + t
+            if cls not in (KittyImage, ITerm2Image, BlockImage):
+                return "err NotAStyle" + t
+            try:
+                img = IMG.AutoImage(PIL_1x1)
+                good = type(img) is cls
+            except HarnessHang:
+                raise
+            except Exception as e:  # noqa: BLE001 — AutoImage() must give an instance of the selected class
+                d["_obs"]["autoimage"] = f"{type(e).__name__}: {e}"
+                return "err AutoImage" + t
+            if not good:
+                d["_obs"]["autoimage"] = f"instance of {type(img).__name__}"
+                return "err AutoImage" + t
+            return "ok some " + STYLE_NAME[cls.__name__] + t
 
     def run_autoclass(self, d):
         fresh()
@@ -914,11 +1037,22 @@ class C12(Property):
     def oracle(self, case: Case, impl_result: str):
         d = case.data
         op = d["op"]
+        if impl_result.startswith("err hang"):
+            # "no reply -> the documented defaults within the timeout instead of blocking"
+            toks = impl_result.split()
+            now = toks[toks.index("@") + 1] if "@" in toks else "?"
+            if "term" in d:
+                detail = "+".join(sorted(k for k, v in d["term"]["replies"].items() if v)) or "silent"
+            else:
+                detail = "-".join(str(x) for x in d.get("more", [])) + ("/silent" if not d.get("w") and not d.get("bursts") else "")
+            return Failure(f"blocks/{op}/{detail}", f"no terminating reply: {op} is still polling after {now} ticks of virtual "
+                           f"time although the timeout is {d.get('T')} (it must give up and return the documented default)")
         if op == "xparse":
             return oracle_xparse(d["body"], impl_result) if d.get("conformant") else None
         if op not in ("colors", "namever", "cellsize", "kitty", "auto"):
             return None
-        return oracle_call(d, impl_result)
+        f = oracle_auto_style(d, impl_result) if op == "auto" else None
+        return f or oracle_call(d, impl_result)
 
     # -- targeted failing-input search ---------------------------------------------------
     def search(self, rng, tier, reasons):
@@ -1003,11 +1137,11 @@ def oracle_call(d, res: str):
     op, T, en = d["op"], d["T"], d["enabled"]
     status, val, dur, left = split_tail(res)
     nq = 2 if op == "auto" else 1
-    where = f"{op}/" + "+".join(sorted(k for k, v in d["term"]["replies"].items() if v)) + ("" if en else "/disabled")
+    where = f"{op}/" + ("+".join(sorted(k for k, v in d["term"]["replies"].items() if v)) or "silent") + ("" if en else "/disabled")
     if dur > nq * T:
-        return Failure(f"{where}/blocks", f"{op} spent {dur} ticks, timeout is {T} per query")
+        return Failure(f"blocks/{where}", f"{op} spent {dur} ticks, timeout is {T} per query")
     if not en and dur != 0:
-        return Failure(f"{where}/blocks", f"{op} with queries disabled spent {dur} ticks")
+        return Failure(f"blocks/{where}", f"{op} with queries disabled spent {dur} ticks")
     if not d.get("conformant"):
         return None
     if left and en and not d["w"]:
@@ -1073,7 +1207,29 @@ def oracle_call(d, res: str):
             return None
         want = "kitty" if k else "iterm2" if i else "block"
         if status != "ok" or val != ["some", want]:
-            return Failure(f"{where}/value", f"auto_image_class() = {status} {val}, want {want} for {name} {ver} reply={reply}")
+            return Failure(f"auto-style/{want}/{where}", f"auto_image_class() = {status} {val}, want {want} for {name} {ver} reply={reply} "
+                           f"TERM={d.get('TERM')} COLORTERM={d.get('COLORTERM')}")
+    return None
+
+
+def oracle_auto_style(d, res: str):
+    """automatic selection, for EVERY terminal and environment: the result is one of the style classes - the first
+    one in the documented order (kitty, iterm2, block) that reports support, else BlockImage - and AutoImage() gives an
+    instance of it"""
+    obs = d.get("_obs")
+    if obs is None or res.split()[:2] in (["err", "AttributeError"], ["err", "ValueError"]):
+        return None
+    sup, env = obs["sup"], f"TERM={d.get('TERM')} COLORTERM={d.get('COLORTERM')}"
+    doc = ["kitty", "iterm2", "block"]
+    first = next((s for s in doc if sup.get(s) is True), "block")
+    got = res.split()[1:3]
+    if got != ["some", first]:
+        what = "no style class at all" if got[:1] == ["none"] or res.startswith("err NotAStyle") else " ".join(got)
+        if res.startswith("err AutoImage"):
+            what = f"AutoImage() failed: {obs.get('autoimage')}"
+        return Failure(f"auto-style/{first}/" + ",".join(f"{k}={sup.get(k)}" for k in doc),
+                       f"auto_image_class() returned {obs['result']} ({what}); the styles reported support {sup} ({env}): "
+                       f"automatic selection must give {first} (kitty, then iterm2, then block; block when none is supported)")
     return None
 
 
@@ -1116,6 +1272,7 @@ def iterm_rule(name, ver):
 
 def pty_tier(rng, ev):
     import pty
+    import signal
     import select as _select
     import threading
     import time
@@ -1174,6 +1331,11 @@ def pty_tier(rng, ev):
             for q in ("fg", "bg", "ver", "cell"):
                 if rng.random() < 0.2:
                     replies[q] = None
+            silent = it % 10 == 9  # a terminal that answers nothing at all
+            if silent:
+                replies = {q: None for q in replies}
+            elif it % 10 == 4:  # answers everything but the DA1 sentinel
+                replies["da1"] = None
             cfg["term"] = {"replies": replies, "delay": rng.choice([0, 0, T / 50, T / 10])}
             utils._query_timeout = T
             utils._queries_enabled = True
@@ -1181,9 +1343,23 @@ def pty_tier(rng, ev):
             utils.get_fg_bg_colors._invalidate_cache()
             utils.get_terminal_name_version._invalidate_cache()
             t0 = time.monotonic()
-            colors = utils.get_fg_bg_colors()
-            nv = utils.get_terminal_name_version()
-            cs = utils.get_cell_size()
+            # per-session wall-clock watchdog: a query that does not come back is interrupted, not waited for
+            def _alarm(signum, frame):
+                raise HarnessHang("hang", "wall-clock watchdog")
+            old_handler = signal.signal(signal.SIGALRM, _alarm)
+            signal.setitimer(signal.ITIMER_REAL, 3 * T + 4.0)
+            try:
+                colors = utils.get_fg_bg_colors()
+                nv = utils.get_terminal_name_version()
+                cs = utils.get_cell_size()
+            except HarnessHang:
+                fails.append(Failure("blocks/pty/" + ("+".join(sorted(k for k, v in replies.items() if v)) or "silent"),
+                                     f"real pty: no terminating reply: the queries are still blocked after {time.monotonic() - t0:.1f}s "
+                                     f"although the timeout is {T}s per query"))
+                break
+            finally:
+                signal.setitimer(signal.ITIMER_REAL, 0)
+                signal.signal(signal.SIGALRM, old_handler)
             el = time.monotonic() - t0
             time.sleep(0.02)
             left = utils.read_tty() or b""
